@@ -119,11 +119,14 @@ def judge(ctx):
             lines.append('s%d %s' % (k, pick_op(ctx, regs)))
         impl = core.run_cases(core.HARNESS_BIN, lines, 'C07-impl-%d' % rnd)
         model = core.run_cases(core.DRIVER_BIN, lines, 'C07-model-%d' % rnd)
+        # a step without an outcome on either side is a failure of the machinery, never "both sides agree"
+        core.require_outcomes(impl, ['s%d' % k for k in range(len(chains))], 'C07 round %d, implementation' % rnd)
+        core.require_outcomes(model, ['s%d' % k for k in range(len(chains))], 'C07 round %d, model' % rnd)
         for k, regs in enumerate(chains):
             line = lines[k].split(' ', 1)[1]
             io, mo = impl.get('s%d' % k, 'missing'), model.get('s%d' % k, 'missing')
             total += 1
-            if io == 'panic' or io.startswith('abort'):
+            if io == 'panic' or io.startswith('abort') or io == 'timeout':
                 ctx.violate('an operation in a chain panics', case=line, step=rnd, observed=io)
                 clean[k] = False
                 continue
@@ -157,6 +160,7 @@ def judge(ctx):
             lines.append('c%d chain %s %s' % (k, gen.hexlist(full[k][:2]), ' | '.join(ops)))
             want['c%d' % k] = 'ok ' + ','.join(gen.hexarg(d) for d in full[k])
     model = core.run_cases(core.DRIVER_BIN, lines, 'C07-chain')
+    core.require_outcomes(model, [l.split(' ', 1)[0] for l in lines], 'C07 whole chains through run_b')
     whole = 0
     for line in lines:
         cid = line.split(' ', 1)[0]
